@@ -18,6 +18,10 @@ def deep_eq(E, st, a, b):
     a, b = E.deref(st, a), E.deref(st, b)
     if isinstance(a, I):
         return a.v == b.v
+    if isinstance(a, SymEnum) or isinstance(b, SymEnum):
+        av = a.v if isinstance(a, SymEnum) else bv(E.variant_index(a))
+        bvv = b.v if isinstance(b, SymEnum) else bv(E.variant_index(b))
+        return av == bvv
     if z3.is_bool(a) if not isinstance(a, (Tup, Adt, Seq, Str, Obj, Closure, Opaque, FnItem, type(None))) else False:
         return a == b
     if isinstance(a, Str) or (isinstance(a, Obj) and a.kind in ('String', 'VecU8')) or isinstance(b, Str):
@@ -59,6 +63,10 @@ def deep_cmp(E, st, a, b):
     """derived Ord / std Ord: BV8 -1/0/1"""
     from .str_models import str_cmp
     a, b = E.deref(st, a), E.deref(st, b)
+    if isinstance(a, SymEnum) or isinstance(b, SymEnum):
+        av = a.v if isinstance(a, SymEnum) else bv(E.variant_index(a))
+        bvv = b.v if isinstance(b, SymEnum) else bv(E.variant_index(b))
+        return z3.If(z3.ULT(av, bvv), z3.BitVecVal(-1, 8), z3.If(av == bvv, z3.BitVecVal(0, 8), z3.BitVecVal(1, 8)))
     if isinstance(a, I):
         lt = (a.v < b.v) if a.s else z3.ULT(a.v, b.v)
         return z3.If(lt, z3.BitVecVal(-1, 8), z3.If(a.v == b.v, z3.BitVecVal(0, 8), z3.BitVecVal(1, 8)))
@@ -441,6 +449,22 @@ def register(E):
     @model(r'^<(.+) as (?:std|core)::cmp::(?:Partial)?Ord>::(cmp|partial_cmp|lt|le|gt|ge|max|min)$')
     def _(E, st, callee, a, m):
         op = m.group(2)
+        if op in ('lt', 'le', 'gt', 'ge'):
+            # provided methods of PartialOrd: defined through the type's own partial_cmp when the crate has one
+            tn = E.type_name_of(st, a[0])
+            cur = st.frames[-1].fn.crate if st.frames else None
+            f = E.resolve(f'<{tn} as std::cmp::PartialOrd>::partial_cmp', cur, None, st) if tn and '::' in tn else None
+            if f is not None:
+                res = []
+                for o in via_call(E, st, FnItem(f'<{tn} as std::cmp::PartialOrd>::partial_cmp', cur), [a[0], a[1]]):
+                    if isinstance(o[1], Panic): res.append(o); continue
+                    oc = o[1]
+                    if oc.variant == 'None':
+                        res.append((o[0], FALSE) + tuple(o[2:])); continue
+                    cv = ordering_bv(E, oc.fields[0])
+                    r = {'lt': cv == -1, 'le': cv != 1, 'gt': cv == 1, 'ge': cv != -1}[op]
+                    res.append((o[0], z3.simplify(r)) + tuple(o[2:]))
+                return res
         c = z3.simplify(deep_cmp(E, st, a[0], a[1]))
         if op == 'cmp': return [(T, SymOrdering(c))]
         if op == 'partial_cmp': return [(T, some(SymOrdering(c)))]
@@ -564,6 +588,10 @@ def register(E):
             args = a[1].fields if isinstance(a[1], Tup) else [a[1]]
             return via_call(E, st, tgt, list(args))
         return None
+
+    @model(r'^(?:std|alloc)::boxed::Box::(into_raw|from_raw|leak|into_inner|into_boxed_str|as_ref|as_mut)$|^std::sync::Arc::(into_raw|from_raw|as_ptr)$|^std::rc::Rc::(into_raw|from_raw|as_ptr)$')
+    def _(E, st, callee, a, m):
+        return [(T, a[0])]
 
     @model(r'^core::bool::<impl bool>::(then|then_some)$')
     def _(E, st, callee, a, m):
